@@ -134,6 +134,8 @@ def validate_before_mutate(rep: Report, prog: Program, cm: ClassModel) -> None:
         for nm, f in sorted(cands.items()):
             if f.name in CTOR_LIKE or f.is_static or f.fq() in seen:
                 continue
+            if prog.is_new_helper(f):
+                continue        # a private helper cut out of a mutator: checked where it is inlined, it is not an API call of its own
             s = cm.summary(ci, f)
             if not s.writes:
                 continue
@@ -249,7 +251,7 @@ def registry_hits(rep: Report, prog: Program, cm: ClassModel) -> None:
     found = 0
     methods = list(g.methods.values()) + list(g.setters.values())
     for f in methods:
-        if f.name in CTOR_LIKE:
+        if f.name in CTOR_LIKE or prog.is_new_helper(f):
             continue
         cfg = cfg_of(f)
         selfn = f.self_name()
@@ -499,8 +501,11 @@ def eq_rules(rep: Report, prog: Program, cm: ClassModel) -> None:
                         and {norm(l.value), norm(r.value)} == {selfn, other}:
                     ok = True
             rep.ob(rule, f.fq(), f"{cname}.__eq__: {sorted(g)[0]} compared between the operands", f.loc(), ok, '' if ok else 'no `self.X == other.X` comparison for this attribute')
+        from ..rules.eqtable import check_eq, check_ne
+        check_eq(rep, 'C16-D4 eq truth table', f)
         ne = ci.methods.get('__ne__')
         if ne is not None:
+            check_ne(rep, 'C16-D4 eq truth table', ne)
             ok = any(isinstance(x, ast.UnaryOp) and isinstance(x.op, ast.Not) and isinstance(x.operand, ast.Call) and callee_last(x.operand) == '__eq__'
                      for x in own_nodes(ne.node)) or any(isinstance(x, ast.Compare) and isinstance(x.ops[0], ast.Eq) for x in own_nodes(ne.node))
             rep.ob(rule, ne.fq(), f"{cname}.__ne__ is the negation of __eq__", ne.loc(), ok, '')
